@@ -212,6 +212,8 @@ def products_digest(left, right):
         for name in sorted(ds.data_vars):
             a = ds[name].data
             h.update(name.encode() + str(a.dtype).encode() + str(a.shape).encode() + a.tobytes())
+        if "indicator" in ds.coords:  # the names of the confidence layers are part of the products
+            h.update(repr(list(map(str, ds.coords["indicator"].data))).encode())
         h.update(b"|")
     return h.hexdigest()
 
@@ -262,6 +264,54 @@ def fresh_products(pandora, pl, code, imgL, imgR, ctx):
         except Exception:  # pylint: disable=broad-except
             _FRESH[key] = None
     return _FRESH[key]
+
+
+def run_checked_vs_written(ctx, pandora, names, cfgs, hist, metaL, metaR, imgL, imgR):
+    """'run as written': the configuration returned by the check (the user's steps completed with their defaults,
+    PandoraMachine.pipeline_cfg - what pandora's own main hands to run) drives the same run as the user's own text:
+    same callback trace, same products, on the checking machine and on a machine that has never been used."""
+    user = {"pipeline": {nm: c for nm, c in zip(names, cfgs)}}
+    case = {"names": names, "cfgs": cfgs, "history": hist}
+    mw = pu.spy_machine()
+    try:
+        lw, rw = pandora.run(mw, imgL, imgR, pu.deep_copy_cfg(user))
+    except Exception:  # pylint: disable=broad-except
+        return  # reported by the run_trace oracle
+    want = (products_digest(lw, rw), list(mw.trace))
+    mc = pu.spy_machine()
+    try:
+        mc.check_conf(pu.deep_copy_cfg(user), metaL, metaR)
+    except Exception:  # pylint: disable=broad-except
+        return  # reported by the acceptance oracle
+    checked = pu.deep_copy_cfg({"pipeline": mc.pipeline_cfg["pipeline"]})
+    for who, m in (("the machine that checked it", mc), ("a machine that has never been used", pu.spy_machine())):
+        m.trace = []
+        ctx.count("checked_configuration_runs")
+        try:
+            lc, rc = pandora.run(m, imgL, imgR, pu.deep_copy_cfg(checked))
+        except Exception as exc:  # pylint: disable=broad-except
+            ctx.violation("checked_cfg_run_raised",
+                          f"accepted pipeline {names}: running the checked configuration (the steps completed with "
+                          f"their defaults) on {who} raises {type(exc).__name__}: {exc} - an accepted pipeline must "
+                          f"run without sequencing error", case)
+            return
+        ctx.traces += 1
+        got = (products_digest(lc, rc), list(m.trace))
+        if got[1] != want[1]:
+            ctx.violation("checked_cfg_trace_differs",
+                          f"accepted pipeline {names}: the checked configuration run on {who} executes the steps "
+                          f"{got[1]}, the configuration as written {want[1]}", case)
+            return
+        if got[0] != want[0]:
+            lay = sorted(set(map(str, lc.data_vars)) ^ set(map(str, lw.data_vars)))
+            conf = None
+            if "confidence_measure" in lc and "confidence_measure" in lw:
+                conf = (list(map(str, lc.coords["indicator"].data)), list(map(str, lw.coords["indicator"].data)))
+            ctx.violation("checked_cfg_products_differ",
+                          f"accepted pipeline {names}: the checked configuration run on {who} returns other products "
+                          f"than the configuration as written (variables differing by name: {lay}; confidence "
+                          f"indicators checked/written: {conf}) - the steps do not take effect as configured", case)
+            return
 
 
 def run_mixed(ctx, pandora, model, mixed, metaL, metaR, imgL, imgR):
@@ -646,6 +696,7 @@ def run(ctx):
                 elif o[0] != 0:
                     ctx.violation("history_check", f"accepted pipeline {names}: a later check in history {hist} was refused",
                                   {"names": names, "cfgs": cfgs, "history": hist})
+            run_checked_vs_written(ctx, pandora, names, cfgs, hist, metaL, metaR, imgL, imgR)
     run_mixed(ctx, pandora, model, mixed, metaL, metaR, imgL, imgR)
     if getattr(ctx, "replay_case", None) is None or second_round_only:
         run_second_round(ctx, model)
